@@ -14,6 +14,7 @@
 package fschannel
 
 import (
+	"bytes"
 	"fmt"
 	"os"
 	"time"
@@ -98,6 +99,24 @@ func (f *rotateFile) Write(p []byte) (int, error) {
 		for ; j > 0; j-- {
 			// line endings windows?
 			if p[j] == '\n' {
+				break
+			}
+		}
+
+		if j <= 0 {
+			// no line ends inside the remaining window
+			if f.pos > 0 {
+				// continue in a fresh file, nothing is skipped
+				if err := f.rotate(); err != nil {
+					return written, err
+				}
+
+				continue
+			}
+
+			// the line alone is larger than a whole file: keep it in one piece
+			j = int64(bytes.IndexByte(p, '\n'))
+			if j < 0 {
 				break
 			}
 		}
